@@ -270,6 +270,13 @@ func (f *Frame) callByContract(st *state, callee *ssa.Function, ct *FuncContract
 	st.mem.alloc = na
 	for _, s := range sites {
 		srt := ws.sites[s]
+		if len(ranges[s]) == 0 {
+			// The callee writes this site only in memory it allocates itself. Cells at or above the allocation pointer
+			// are unconstrained in the caller's heap, so the same array can stand for the heap after the call: the
+			// callee's postconditions become facts about those (so far unconstrained) cells.
+			u.sortOfSite(s, srt)
+			continue
+		}
 		old := u.arr(st.mem, s, srt)
 		u.sortOfSite(s, srt)
 		h := u.ctx.freshConst(f.prefix+".callM:"+s, SArr(SInt, srt))
@@ -477,6 +484,10 @@ func (u *Unit) scriptSliced(o *Obligation) string {
 			}
 			rel[s] = true
 			work = append(work, s)
+			if _, ok := u.ctx.names[s+"!frame"]; ok && !rel[s+"!frame"] {
+				rel[s+"!frame"] = true
+				work = append(work, s+"!frame")
+			}
 		}
 	}
 	closeDefs := func() {
@@ -542,6 +553,8 @@ func (u *Unit) ancestorBlocks(blk int) map[int]bool {
 	if u.root == nil || blk < 0 || blk >= len(u.root.Blocks) {
 		return nil
 	}
+	u.ancMu.Lock()
+	defer u.ancMu.Unlock()
 	if u.ancCache == nil {
 		u.ancCache = map[int]map[int]bool{}
 	}
@@ -585,6 +598,10 @@ func (u *Unit) scriptOpt(o *Obligation, dropQuant bool) string {
 			if _, ok := u.ctx.names[s]; ok && !needed[s] {
 				needed[s] = true
 				work = append(work, s)
+				if _, ok := u.ctx.names[s+"!frame"]; ok && !needed[s+"!frame"] {
+					needed[s+"!frame"] = true
+					work = append(work, s+"!frame")
+				}
 			}
 		}
 	}
@@ -616,6 +633,15 @@ func (u *Unit) scriptOpt(o *Obligation, dropQuant bool) string {
 			if dropQuant && (strings.Contains(it.text, "(forall ") || strings.Contains(it.text, "(exists ")) {
 				continue
 			}
+		}
+		if dropQuant && it.kind == itRaw && strings.Contains(it.text, "(forall ") {
+			for _, line := range strings.Split(it.text, "\n") {
+				if !strings.Contains(line, "(forall ") {
+					b.WriteString(line)
+					b.WriteByte('\n')
+				}
+			}
+			continue
 		}
 		b.WriteString(it.text)
 		b.WriteByte('\n')
@@ -657,7 +683,7 @@ func solveUnit(res *UnitResult, opt Options) {
 			defer func() { <-sem }()
 			script := u.script(o)
 			o.Res = solve(script, u.inputSyms(), opt.Timeout, opt.NeedAgree)
-			if o.Res.Verdict == "unknown" && !strings.Contains(o.Cond, "(forall ") && !strings.Contains(o.Cond, "spec:") {
+			if o.Res.Verdict == "unknown" && !strings.Contains(o.Cond, "(forall ") {
 				// candidate counterexample search without quantified assumptions
 				r2 := solve(u.scriptQF(o), u.inputSyms(), opt.Timeout, 1)
 				if r2.Verdict == "sat" {
